@@ -58,6 +58,13 @@ CVeto(c) ==
   /\ vetoed' = [vetoed EXCEPT ![c] = TRUE]
   /\ UNCHANGED <<cpc, cn, regpc, regi, upc>>
 
+\* the call to a plugin that failed during this request returns some transport error
+CCallError(c) ==
+  /\ cpc[c] = "locked" /\ rlock = c
+  /\ \E k \in ErrKinds : CallError(k)
+  /\ vetoed' = [vetoed EXCEPT ![c] = (cur'.veto = "yes")]
+  /\ UNCHANGED <<cpc, cn, regpc, regi, upc>>
+
 CUnlock(c) ==
   /\ cpc[c] = "locked"
   /\ Unlock(c)
@@ -128,7 +135,8 @@ UUnlock ==
   /\ upc' = "done" /\ UNCHANGED <<cpc, cn, regpc, regi, vetoed>>
 
 MNext ==
-  \/ \E c \in Callers : CBlock(c) \/ CLock(c) \/ CDeliver(c) \/ CVeto(c) \/ CUnlock(c) \/ CStore(c) \/ CUnblock(c)
+  \/ \E c \in Callers : CBlock(c) \/ CLock(c) \/ CDeliver(c) \/ CVeto(c) \/ CCallError(c) \/ CUnlock(c) \/ CStore(c)
+                         \/ CUnblock(c)
   \/ RReject \/ RWant \/ RGot \/ RSnap \/ RLock \/ RActivate \/ RUnlock \/ RFinish
   \/ Fail \/ ULock \/ UCallback \/ UUnlock
 
